@@ -118,9 +118,11 @@ func (i *Interpreter) evaluateAsyncExpr(expr AsyncExpr, env *Environment) (inter
 	// Create a new Future to represent the pending result
 	future := NewFuture()
 
-	// Create a child environment for the async block
-	// This captures the current scope for use in the goroutine
-	asyncEnv := NewChildEnvironment(env)
+	// Create a child environment for the async block over a snapshot of the
+	// current scopes, taken here, before the goroutine starts: the parent goes
+	// on declaring and assigning variables while the block runs, and the scope
+	// maps must not be shared between the two goroutines.
+	asyncEnv := NewChildEnvironment(env.Snapshot())
 
 	// Execute the async block in a separate goroutine
 	go func() {
